@@ -798,7 +798,7 @@ func body(r *ev.Run) {
 	r.Require("ws_probes_revoked", 20)
 	r.Require("http_probes_over_tcp", 50)
 
-	nSeq := r.Pick(60, 1500)
+	nSeq := r.Pick(160, 1500)
 	var e *env
 	defer func() {
 		if e != nil {
